@@ -649,7 +649,7 @@ def main(argv=None):
         rc = 1
 
     wall = time.time() - t0
-    top = dict(sorted(classes.items(), key=lambda kv: -kv[1])[:40])
+    top = dict(sorted(classes.items(), key=lambda kv: -kv[1])[:120])
     cov = {
         "evaluations": int(evaluations),
         "distinct_nontrivial": len(nontrivial),
